@@ -43,7 +43,10 @@ MANIFEST = {
             'script variant, sampled for multi-fault plans.'
             ' Names that exist as another kind of thing (a location asked'
             ' for as a group, a group as a location, a light as either) c'
-            'ount as unknown.',
+            'ount as unknown.'
+            ' Padded and other-case variants of known names count as unkn'
+            'own; the production logging set-up (log_config.configure) is'
+            ' performed.',
     'note': 'Trusted: simulated devices and fault plans; "does not answer" == '
             'lifxlan WorkflowException; a logical request ends on success or '
             'after three consecutive failed attempts. A failed `get` leaves '
